@@ -224,6 +224,39 @@ func c07GenTracked(tier string, rng *rand.Rand, emit func(Case)) {
 		}
 		emit(c)
 	})
+	// every data type byte 0..255 as the type of the only column of a format package (narrow and wide, row
+	// and parameter formats): what `LookupFieldFmt` makes of every byte, known type or not (data packages of
+	// every known type: the row generators of the fields group)
+	for t := 0; t < 256; t++ {
+		tail := []byte{0x04, 0x0a, 0x02, 0, 0, 0, 0, 0, 0, 0, 0, 0, 0, 0, 0, 0, 0} // length / precision / scale / locale, enough for every class
+		col := func(status []byte) []byte {
+			b := append([]byte{1, 'c'}, status...)
+			b = append(b, le32(0)...)
+			return append(append(b, byte(t)), tail...)
+		}
+		narrow := append(le16(1), col([]byte{0})...)
+		wideP := append(le16(1), col(le32(0))...)
+		wideR := le16(1)
+		for i := 0; i < 5; i++ {
+			wideR = append(wideR, 1, 'c')
+		}
+		wideR = append(append(append(wideR, le32(0)...), le32(0)...), byte(t))
+		wideR = append(wideR, tail...)
+		for _, f := range []struct {
+			tok  byte
+			body []byte
+			wide bool
+		}{{0xEE, narrow, false}, {0xEC, narrow, false}, {0x61, wideR, true}, {0x20, wideP, true}} {
+			var full []byte
+			if f.wide {
+				full = append(le32(len(f.body)), f.body...)
+			} else {
+				full = append(le16(len(f.body)), f.body...)
+			}
+			l := fmt.Sprintf("pkg dec %02x - %s", f.tok, hx(full))
+			emit(Case{Line: l, Kind: "datatype-sweep"})
+		}
+	}
 	// the channel's side of the condition: how the receive loop classifies the parser's answer. A sample
 	// of the encodings of every kind travels through the real Channel.WritePacket, cut inside the package
 	// (`rx` lines of C02): the truncated attempt must leave no trace (no channel error, no delivery), and
@@ -408,6 +441,9 @@ func c10Gen(tier string, rng *rand.Rand, emit func(Case)) {
 	// (a data package takes its format from the package before it — a format, a data package or an
 	// ORDERBY — so what a package hands on depends on the history)
 	grammarGen(tier, rng, emit)
+	// a response that ends in a package cut short by the end of the message, then further responses in small
+	// packets (c02.go): nothing left over from the broken one may reach the next (stale read position)
+	brokenThenNextGen(tier, rng, emit)
 	// packet level: all header values incl. length < 8 (c14.go)
 	rdrawGen(tier, rng, emit)
 	// value level: every data type with every data length 0..255 (c10values.go)
